@@ -306,6 +306,31 @@ func (s *Sim) Learn(st *Step) {
 	}
 
 	// --- recovery codes
+	// whatever the response showed: when an account's stored list was replaced (an enrolment or regeneration whose
+	// page an application listener answered in the library's stead, 2FA switched off), the codes handed out
+	// earlier are dead. (A list that shrank by exactly one is a consumption, handled below.)
+	for _, d := range rec.Diff() {
+		if d.Field != "RecoveryCodes" {
+			continue
+		}
+		nOld, nNew := 0, 0
+		if d.Old != "" {
+			nOld = len(strings.Split(d.Old, ","))
+		}
+		if d.New != "" {
+			nNew = len(strings.Split(d.New, ","))
+		}
+		if nNew == nOld-1 {
+			continue
+		}
+		if ac := s.AcctByPID(d.PID); ac != nil {
+			for _, c := range ac.Recov {
+				if c.State == Live || c.State == Limbo {
+					c.State = Dead
+				}
+			}
+		}
+	}
 	if rec.JSON != nil {
 		if list, ok := rec.JSON["recovery_codes"].([]interface{}); ok && len(list) > 0 {
 			if ac := s.AcctByPID(st.UIDIn); ac != nil {
